@@ -267,6 +267,17 @@ func rewriteFile(path, pkg string) error {
 		return true
 	})
 
+	// function-entry scheduling points (level-1 yields): a no-op unless the run enables them (cfg fnyield=1).  They
+	// open the windows between two plain memory accesses of different goroutines - lock-free shared state such as a
+	// slice or cursor handed out of a critical section - that no lock, channel, atomic or system call marks.
+	for _, d := range f.Decls {
+		fd, ok := d.(*ast.FuncDecl)
+		if !ok || fd.Body == nil || fd.Name.Name == "init" || fd.Name.Name == "String" || fd.Name.Name == "Error" {
+			continue
+		}
+		fd.Body.List = append([]ast.Stmt{rw.callStmt("FnYield")}, fd.Body.List...)
+	}
+
 	// expression-level call rewrites
 	ast.Inspect(f, func(n ast.Node) bool {
 		call, ok := n.(*ast.CallExpr)
@@ -374,7 +385,7 @@ func (rw *rewriter) stmts(list []ast.Stmt) []ast.Stmt {
 			}
 			p := rw.fset.Position(a.pos)
 			out = append(out, &ast.ExprStmt{X: &ast.CallExpr{
-				Fun: &ast.SelectorExpr{X: ast.NewIdent("simrt"), Sel: ast.NewIdent("MapAccess")},
+				Fun:  &ast.SelectorExpr{X: ast.NewIdent("simrt"), Sel: ast.NewIdent("MapAccess")},
 				Args: []ast.Expr{a.expr, ast.NewIdent(w), &ast.BasicLit{Kind: token.STRING, Value: strconv.Quote(fmt.Sprintf("%s:%d", rw.relname, p.Line))}},
 			}})
 		}
